@@ -4,9 +4,28 @@ from the Rust sources on every run."""
 import itertools, json, os
 from .core import hexs, VERIF
 
+ENVMAP_SHIPPED = [("", ""), ("A=1\n", "A=1\n"), ("A=1", "A=1\n"), ("LANG=C.UTF-8\nPATH=/usr/bin:/bin\n", "LANG=C.UTF-8\nPATH=/usr/bin:/bin\n"),
+                  ("A=b=c\n", "A=b=c\n"), ("novalue", None), ("A=1\nB\n", None)]
+# after proposed_fixes/C20-buildinfo-environment-serializer.patch: entries joined by "\n", no final line end
+ENVMAP_JOINED = [("", ""), ("A=1\n", "A=1"), ("A=1", "A=1"), ("LANG=C.UTF-8\nPATH=/usr/bin:/bin\n", "LANG=C.UTF-8\nPATH=/usr/bin:/bin"),
+                 ("LANG=C.UTF-8\nPATH=/usr/bin:/bin", "LANG=C.UTF-8\nPATH=/usr/bin:/bin"), ("A=b=c\n", "A=b=c"), ("A=b=c", "A=b=c"),
+                 ("novalue", None), ("A=1\nB\n", None)]
+
+def env_serializer_variant():
+    """which serialize_env the tree has (read from the source, like the Signature flag of the translator)"""
+    from .core import REPO
+    import re
+    try:
+        src = open(os.path.join(REPO, "debian-control", "src", "lossy", "buildinfo.rs"), encoding="utf-8").read()
+    except OSError:
+        return "shipped"
+    m = re.search(r"fn serialize_env.*?\n}\n", src, re.S)
+    return "shipped" if m and '"{}={}\\n"' in m.group(0) else "joined"
+
 def load_structs():
     with open(os.path.join(VERIF, "coq", "gen", "structs.json"), encoding="utf-8") as f:
         js = json.load(f)
+    EXT_POOL["EnvMap"] = ENVMAP_SHIPPED if env_serializer_variant() == "shipped" else ENVMAP_JOINED
     # apt-sources Signature: the expectations depend on which FromStr the tree has (translator flag)
     if js.get("flags", {}).get("sig_keyblock") == "strip":
         EXT_POOL["Signature"] = SIGNATURE_STRIP
